@@ -21,7 +21,10 @@ RULE = ("ALL sequences of <= L operations (L=5 quick, 7 thorough) over {open "
         "nothing, closing frees exactly its own FMMU and deactivates it. "
         "Plus seeded histories of 2-4 concurrent tasks (sync groups sharing "
         "the terminal) opening, holding and closing mappings at random "
-        "offsets: no FMMU is given to a task while another still uses it. "
+        "offsets: no FMMU is given to a task while another still uses it; "
+        "closes by an exception in the body and with a faulted switch-off "
+        "datagram; real sync groups over 2-3 terminals of which one has no "
+        "free FMMU: after the failed start nothing stays booked. "
         "a case = one sequence; non-trivial = at least two mappings live at "
         "some point")
 ASSUMPTIONS = ["a mapping that fails although some FMMU is free is not a "
@@ -34,7 +37,9 @@ def plan(tier, seed):
     return [dict(n=n, L=L, first=f) for n in (1, 2, 3, 4)
             for f in ("R", "W")] + [
         dict(n=n, concurrent=True, seed=seed,
-             count=600 if tier == "quick" else 6000) for n in (1, 2, 3, 4)]
+             count=600 if tier == "quick" else 6000) for n in (1, 2, 3, 4)] \
+        + [dict(n=0, group=True, seed=seed,
+                count=40 if tier == "quick" else 600)]
 
 
 def sequences(L, first):
@@ -52,9 +57,14 @@ def sequences(L, first):
             rec(seq, nopen + 1)      # may fail to open; handled at run time
             seq.pop()
         for i in range(nopen):
-            seq.append(("C", i))
-            rec(seq, nopen - 1)
-            seq.pop()
+            # normal end, end by an exception raised in the body, end with
+            # a faulted switch-off datagram (working counter 0)
+            for how in ("C", "X", "F"):
+                if how != "C" and len(seq) + 1 < L - 1 and nopen > 1:
+                    continue        # variants only near the leaves
+                seq.append((how, i))
+                rec(seq, nopen - 1)
+                seq.pop()
     rec([first], 1)
     return out
 
@@ -92,8 +102,27 @@ def run_seq(n, seq):
                 else:
                     cm, idx, w, lg = live.pop(op[1])
                     try:
-                        await cm.__aexit__(None, None, None)
-                        outcome = ("closed", idx)
+                        if op[0] == "X":
+                            class Boom(Exception):
+                                pass
+                            try:
+                                await cm.__aexit__(Boom, Boom("body"), None)
+                            except Boom:
+                                pass
+                            outcome = ("closed-by-exception", idx)
+                        elif op[0] == "F":
+                            b.wkc_override = lambda fno, dno, wkc: 0
+                            try:
+                                await cm.__aexit__(None, None, None)
+                                outcome = ("closed", idx)
+                            except Exception as ex:
+                                outcome = ("closed-faulted", idx,
+                                           type(ex).__name__)
+                            finally:
+                                b.wkc_override = None
+                        else:
+                            await cm.__aexit__(None, None, None)
+                            outcome = ("closed", idx)
                     except Exception as ex:
                         outcome = ("close-failed", repr(ex))
             regs = [e for e in t.events[mark:] if e[0] == "fmmu"]
@@ -142,6 +171,14 @@ def check_trace(n, trace):
                     maxlive
             if st["fmmu_writes"]:
                 return f"step {k}: failed open wrote FMMU registers", maxlive
+        elif out[0] in ("closed-by-exception", "closed-faulted"):
+            # however a mapping ends, it frees its own slot (the statement
+            # does not say the FMMU is switched off on these paths)
+            idx = out[1]
+            if idx not in live:
+                return f"step {k}: closed FMMU {idx} that was not live", \
+                    maxlive
+            del live[idx]
         elif out[0] == "closed":
             idx = out[1]
             if idx not in live:
@@ -239,8 +276,80 @@ def check_concurrent(n, plan_, events, final):
     return None, maxlive
 
 
+def group_leg(params, res):
+    """a real sync group over 2-3 terminals of which one has no free FMMU
+    left (another live mapping holds it): the group's start fails, and
+    afterwards every FMMU of the other terminals is free again and the
+    mapping that was live before is untouched"""
+    import random
+    from .. import simgroup
+    from ebpfcat.ebpfcat import SimpleEtherCat, SyncGroup
+    rng = random.Random(params["seed"] * 31 + 5)
+    for round_ in range(params["count"]):
+        terms = simgroup.gen_terms(rng, nmax=3)
+        if len(terms) < 2:
+            terms = terms + simgroup.gen_terms(rng, nmax=1)
+            terms[-1]["pos"] = 30
+        for d in terms:
+            d["fmmu"] = True
+        victim = rng.randrange(len(terms))
+        sims = simgroup.make_sims(terms)
+        b = bus.Bus(sims)
+        out = {}
+
+        async def main(loop):
+            ec = SimpleEtherCat("vf")
+            bus.attach(ec, loop, b)
+            ts, devs = simgroup.make_rig(terms, ec)
+            nf = rng.choice([1, 2])
+            ts[victim].fmmu_used = [None] * nf
+            holders = []
+            for k in range(nf):
+                cm = ts[victim].map_fmmu(0x70000 + 0x1000 * k, False)
+                await cm.__aenter__()
+                holders.append(cm)
+            held = list(ts[victim].fmmu_used)
+            sg = SyncGroup(ec, devs)
+            task = sg.start()
+            res_ = await asyncio.gather(task, return_exceptions=True)
+            await asyncio.sleep(0.05)
+            out["outcome"] = repr(res_[0])[:100]
+            out["held_before"], out["held_after"] = held, \
+                list(ts[victim].fmmu_used)
+            out["others"] = {t.name: list(t.fmmu_used)
+                             for i, t in enumerate(ts) if i != victim}
+            for cm in holders:
+                await cm.__aexit__(None, None, None)
+        try:
+            aio.run(main, max_iterations=200000)
+        except aio.Idle:
+            res.inconc("group leg: virtual loop ran away")
+            continue
+        desc = dict(terms=terms, victim=victim)
+        res.case(["group", round_, desc])
+        res.count("group_starts_with_exhausted_terminal")
+        if "ValueError" not in out["outcome"] and \
+                "IndexError" not in out["outcome"]:
+            res.count("group_outcome_other")
+            res.sample(dict(group_outcome=out["outcome"], **desc), limit=2)
+        if out["held_after"] != out["held_before"]:
+            res.violation("unexplained:group-failure-disturbed-live-mapping",
+                          f"slots of the exhausted terminal {out['held_before']}"
+                          f" -> {out['held_after']}", case=desc)
+        leaked = {k: v for k, v in out["others"].items()
+                  if any(x is not None for x in v)}
+        if leaked:
+            res.violation("unexplained:group-failure-leaks-fmmu",
+                          f"the group failed ({out['outcome']}) but "
+                          f"terminals keep FMMUs booked: {leaked}",
+                          case=desc)
+
+
 def run_shard(params):
     res = Result()
+    if params.get("group"):
+        group_leg(params, res)
+        return res
     n = params["n"]
     if params.get("concurrent"):
         import random
@@ -291,7 +400,9 @@ def run_shard(params):
 def finalize(res, tier, seed):
     c = res.counters
     for k in ("outcome:opened", "outcome:failed", "outcome:closed",
-              "concurrent_outcome:entered", "concurrent_outcome:failed"):
+              "concurrent_outcome:entered", "concurrent_outcome:failed",
+              "group_starts_with_exhausted_terminal",
+              "outcome:closed-by-exception", "outcome:closed-faulted"):
         if not c.get(k):
             res.inconc(f"{k} never observed")
 
